@@ -271,7 +271,8 @@ func (m *Mixed) Next(v *View) forge.BlockSpec {
 				if !ok {
 					continue
 				}
-				if m.O.AvoidKnown && h+1 >= e.ConversionLimit && h < e.V20 && tx.IsConversion() && tx.Conv == fat2.PTickerPEG {
+				if m.O.AvoidKnown && h+10 >= e.ConversionLimit && h < e.V20 && tx.IsConversion() && tx.Conv == fat2.PTickerPEG {
+					// (from 10 blocks before the bank era: a batch held across unrated blocks executes later than h+1)
 					hasPegReq = true
 					txs = []forge.Tx{tx} // bank-era PEG requests travel alone (mixed batches hit recorded findings)
 					break
